@@ -1,7 +1,7 @@
 SPECIFICATION Spec
 CONSTANTS
   DEPTH = 40
-  LEN = 36
+  LEN = 46
   MODE = "dual"
 INVARIANTS Emit
 CHECK_DEADLOCK FALSE
